@@ -165,6 +165,10 @@ Example getinfo_slash_name_ex :
 Proof. exact getinfo_slash_name_header. Qed.
 
 (* ---- archiveinfo ---- *)
+(* sub-streams per folder: NumUnpackStream, one each when SubStreamsInfo is absent *)
+Theorem nums_of_spelled_out : forall st folders,
+  nums_of st folders = match si_sub st with Some sub => s_nums sub | None => repeat 1 (length folders) end.
+Proof. intros st folders. reflexivity. Qed.
 Theorem archiveinfo_agrees : forall (hn : bool) (h : header) (a : ainfo),
   archiveinfo hn h = Ok a ->
   exists ps,
@@ -172,20 +176,20 @@ Theorem archiveinfo_agrees : forall (hn : bool) (h : header) (a : ainfo),
     /\ match h_streams h with
        | None => ai_blocks a = 0 /\ ai_solid a = false /\ ai_method_names a = []
        | Some st =>
-           exists folders sub,
-             si_folders st = Some folders /\ si_sub st = Some sub
+           exists folders,
+             si_folders st = Some folders
              /\ ai_blocks a = zlen folders
-             /\ (ai_solid a = true <-> exists n, In n (s_nums sub) /\ 1 < n)
+             /\ (ai_solid a = true <-> exists n, In n (nums_of st folders) /\ 1 < n)
              /\ ai_method_names a = get_methods_names (map f_coders folders)
        end.
 Proof. exact archiveinfo_agrees_header. Qed.
 Print Assumptions archiveinfo_agrees.
 
-(* it answers for every archive opened by path: no members, no main streams, anything -- provided main streams, when
-   present, carry folders and SubStreamsInfo (py7zr does not open an archive with data members and no SubStreamsInfo) *)
+(* it answers for every archive opened by path: no members, no main streams, no SubStreamsInfo, anything -- provided
+   main streams, when present, carry folders *)
 Theorem archiveinfo_total : forall (h : header) ps,
   impl_plans h = Ok ps ->
-  (forall st, h_streams h = Some st -> si_folders st <> None /\ si_sub st <> None) ->
+  (forall st, h_streams h = Some st -> si_folders st <> None) ->
   exists a, archiveinfo true h = Ok a.
 Proof. exact archiveinfo_total_header. Qed.
 Print Assumptions archiveinfo_total.
@@ -203,13 +207,22 @@ Theorem archiveinfo_nostreams :
 Proof. exact archiveinfo_nostreams_header. Qed.
 Print Assumptions archiveinfo_nostreams.
 
+(* an archive without SubStreamsInfo (two folders, a directory between the members; formerly it did not open) *)
+Theorem archiveinfo_nosub :
+  (exists ps, impl_plans nosub_header = Ok ps /\
+     map (fun p => (af_uncompressed p, ip_crc p)) ps = [(3, Some 11); (0, None); (5, None)])
+  /\ archiveinfo true nosub_header = Ok (mkAinfo [[67; 79; 80; 89]] false 2 8)
+  /\ archiveinfo true (install_sub nosub_header) = archiveinfo true nosub_header.
+Proof. exact archiveinfo_nosub_header. Qed.
+Print Assumptions archiveinfo_nosub.
+
 Example archiveinfo_ex :
   archiveinfo true ex1 = Ok (mkAinfo [s2z "COPY"] true 1 8)
   /\ archiveinfo true ex2 = Ok (mkAinfo [s2z "COPY"; s2z "7zAES"] false 1 3)
-  /\ (forall st, h_streams ex1 = Some st -> si_folders st <> None /\ si_sub st <> None).
+  /\ (forall st, h_streams ex1 = Some st -> si_folders st <> None).
 Proof.
   split; [vm_compute; reflexivity|]. split; [vm_compute; reflexivity|].
-  intros st H. vm_compute in H. inversion H; subst. split; discriminate.
+  intros st H. vm_compute in H. inversion H; subst. discriminate.
 Qed.
 
 (* method names: exactly the display-list names carried by some coder; display order; no repetition *)
